@@ -23,6 +23,7 @@ from ..core import (
     norm,
     parent,
     qualname,
+    resolve_local,
     src,
 )
 from ..csvschema import Row, Use, reader_cases, row_of, triple_elements
@@ -849,6 +850,31 @@ def r7_census(ctx: Context) -> None:
               f"is_cancelled is `{norm(rets[0].value)[:80] if rets else '?'}`")
 
 
+def r15_resource_columns_of_a_batched_task(ctx: Context) -> None:
+    ctx.rule("C08.R15", "Worker.get_allocated_resources (the resource columns of TASK_PLACEMENT / TASK_MIGRATED rows): for a task placed as part of a "
+                        "batch the ledger is asked about the batch's placeholder task - the only one that holds the allocation -, otherwise about the task")
+    cls = ctx.repo.mod("workers/workers.py").cls("Worker")
+    fn = method(cls, "get_allocated_resources")
+    ctx.analysed_function("workers/workers.py::Worker.get_allocated_resources")
+    task = fn.args.args[1].arg
+    g = cfgmod.build(fn)
+    batch_tests = [t for t in g.nodes if t.kind == "test" and isinstance(t.ast, ast.Call) and call_name(t.ast) == "isinstance" and "BatchStrategy" in norm(t.ast)]
+    ctx.floor("C08.R15", "batch-strategy test in Worker.get_allocated_resources", len(batch_tests), 1)
+    asks = [c for c in calls_in(fn, "get_allocated_resources") if is_self_attr(c.func.value, "_resources") and c.args]
+    ctx.floor("C08.R15", "ledger look-ups in Worker.get_allocated_resources", len(asks), 2)
+    for c in asks:
+        arg = resolve_local(fn, c.args[0])
+        batched = g.edge_dominates(batch_tests[0], "T", g.node_of(c))
+        if batched:
+            ok = isinstance(arg, ast.Subscript) and is_self_attr(arg.value, "_batch_tasks_for_strategy")
+            ctx.check(ok, "C08.R15", "Worker.get_allocated_resources|batched task: allocation of the placeholder", loc(c), norm(c.args[0]),
+                      f"`{norm(c)}` asks the ledger about `{norm(c.args[0])}` in the batch branch: members of a batch hold no allocation of their own (Worker.place_task "
+                      "allocates once for the placeholder), so the resource columns of the row are empty or the look-up fails")
+        else:
+            ctx.check(norm(arg) == task, "C08.R15", "Worker.get_allocated_resources|single task: its own allocation", loc(c), norm(c.args[0]),
+                      f"`{norm(c)}` does not ask about the task itself")
+
+
 def run(ctx: Context) -> None:
     ctx.isolate(r1_r2_schema)
     ctx.isolate(r3_keywords)
@@ -859,6 +885,7 @@ def run(ctx: Context) -> None:
     ctx.isolate(r9_reader_keeps_everything)
     ctx.isolate(r13_reader_updates_unconditional)
     ctx.isolate(r14_rows_read_the_handled_event)
+    ctx.isolate(r15_resource_columns_of_a_batched_task)
     from . import c06
     ctx.isolate(c06.r5_cancellation_reported, _alias={"C06.R5": "C08.R8"})
     from . import c07, c18
